@@ -686,6 +686,48 @@ crate::harness! {
     }
 }
 
+// Long executions: the first execution draws 40 values; the second draws a symbolic number m <= 40 of values; the third
+// draws 40 again. Every draw of a later execution must equal the draw at the same position of the first one, whatever the
+// length of the execution in between (a source that caches a prefix, or rewinds lazily, differs only behind it).
+fn fixed_source_long(s0: u64) {
+    use shuttle_engine::scheduler::data::fixed::FixedDataSource;
+    const N: usize = 40;
+    let mut a = FixedDataSource::initialize(s0);
+    let r1 = a.reinitialize();
+    let mut first = [0u64; N];
+    let mut i = 0;
+    while i < N {
+        first[i] = a.next_u64();
+        i += 1;
+    }
+    let m: usize = kani::any();
+    kani::assume(m <= N);
+    let r2 = a.reinitialize();
+    let mut i = 0;
+    while i < m {
+        let d = a.next_u64();
+        assert!(d == first[i], "C09: a draw of the second execution differs from the first execution's draw at the same position");
+        i += 1;
+    }
+    let r3 = a.reinitialize();
+    let mut i = 0;
+    while i < N {
+        let d = a.next_u64();
+        assert!(d == first[i], "C09: a draw of the third execution differs from the first execution's draw at the same position");
+        i += 1;
+    }
+    assert!(r1 == r2 && r2 == r3, "C09: the fixed data source reports a different seed for a later execution");
+    kani::cover!(m == N, "a second execution as long as the first");
+    kani::cover!(m == 0, "a second execution without draws");
+}
+
+crate::harness! {
+    #[kani::unwind(42)]
+    fn c09_fixed_data_source_long_executions() {
+        fixed_source_long(0x1234_5678);
+    }
+}
+
 // ---- C10: reseeding with symbolic seeds of bounded width -----------------------------------------------------
 fn reseed_bits<const BITS: u32>() {
     let s0: u64 = kani::any();
